@@ -36,6 +36,15 @@ def bases():
     for size in (10, 20):
         out.append({'front_end': 'procpool', 'config': dict(pcfg), 'dirwatch': True,
                     'transfers': [{'kind': 'download', 'dst': 'path', 'size': size, 'preexisting': size == 10}]})
+    # base names at and near the file-system limit (the temporary name has to be derived by truncation there)
+    out.append({'config': dict(cfg), 'dirwatch': True,
+                'transfers': [{'kind': 'download', 'dst': 'path', 'size': 20, 'preexisting': True, 'name_len': 255}]})
+    out.append({'config': dict(cfg), 'dirwatch': True,
+                'transfers': [{'kind': 'download', 'dst': 'path', 'size': 10, 'preexisting': False, 'name_len': 250}]})
+    out.append({'front_end': 'procpool', 'config': dict(pcfg), 'dirwatch': True,
+                'transfers': [{'kind': 'download', 'dst': 'path', 'size': 20, 'preexisting': True, 'name_len': 255}]})
+    out.append({'front_end': 'legacy', 'config': dict(lcfg), 'dirwatch': True,
+                'transfers': [{'kind': 'download', 'dst': 'path', 'size': 20, 'preexisting': True, 'name_len': 246}]})
     return out
 
 
